@@ -130,7 +130,7 @@ def write_crate(ws_dir, progs):
     d = os.path.join(ws_dir, cname, "src")
     os.makedirs(d)
     with open(os.path.join(ws_dir, cname, "Cargo.toml"), "w") as f:
-        f.write(G.CARGO_TOML.format(name=cname, repo=G.REPO, verif=G.VERIF, rtfeat=""))
+        f.write(G.CARGO_TOML.format(name=cname, repo=G.REPO, verif=G.VERIF, rtfeat="", futdep='futures = "0.3.0"\n'))
     lines = PRELUDE.strip("\n").split("\n")
     spans = {}
     for n, src, macro in progs:
